@@ -45,12 +45,13 @@ func Program(rt *rapid.T, spec ProgramSpec, corpusPaths []string) *prog.Program 
 
 // FrontSpec says which schedule dimensions and fault kinds are in play.
 type FrontSpec struct {
-	Faults      []string // allowed fault kinds
-	MaxFaults   int
-	Constructs  []string // XGo-only constructs injected between statements (not faults)
-	FileAssign  bool
-	HandlerFlip bool
-	Writes      bool // files written mid-build and in scrambled order at the end
+	Faults        []string // allowed fault kinds
+	MaxFaults     int
+	Constructs    []string // XGo-only constructs injected between statements (not faults)
+	FileAssign    bool
+	HandlerFlip   bool
+	CompleteEarly bool // grouped type declarations may be closed before lazy members are loaded (output then lacks those specs: only for byte comparison)
+	Writes        bool // files written mid-build and in scrambled order at the end
 }
 
 // Front draws a front-end schedule: 1/4 plain (source order, nothing lazy), the rest with
@@ -81,6 +82,12 @@ func Front(rt *rapid.T, spec FrontSpec) *run.Front {
 		for i := 0; i < n; i++ {
 			f.FileAssign = append(f.FileAssign, rapid.IntRange(0, 3).Draw(rt, "file"))
 		}
+	}
+	if spec.CompleteEarly && len(f.Lazy) > 0 {
+		f.CompleteEarly = rapid.Bool().Draw(rt, "complete_early")
+		// make it likely that both members of a group are lazy
+		f.Lazy = append(f.Lazy, 0, 1, 2, 3)
+		f.Eager = append([]int{0, 1, 2, 3}, f.Eager...)
 	}
 	if spec.Writes {
 		// (files are not written in the middle of a build: gogen fixes the name of an import
@@ -172,6 +179,9 @@ func SimplifyFront(f *run.Front) []*run.Front {
 	}
 	if f.XGoBuiltin {
 		add(func(c *run.Front) { c.XGoBuiltin = false })
+	}
+	if f.CompleteEarly {
+		add(func(c *run.Front) { c.CompleteEarly = false })
 	}
 	if len(f.EarlyWrites) > 0 {
 		add(func(c *run.Front) { c.EarlyWrites = nil })
